@@ -980,12 +980,12 @@ theorem cplx_parts3 (nc : Char) (m : List Char) (L : List Ent) (toks : List Tree
             simp only [sp, List.map_nil, List.flatten_nil, List.nil_append] at this
             simp only [List.length_cons, List.length_nil] at la this ⊢
             exact this.mono (by omega)
-  obtain ⟨hX1, c0, t, e1, e2, e3⟩ := hX
+  obtain ⟨hX1, hX2⟩ := hX
   have h1 := Ok_ident pil_env 0 nc m (' ' :: '=' :: (sp L ++ X)) hnc hm
     (OutHd_cons _ _ _ (outside_facts ' ' (by decide)))
   have h2 := Ok_punct pil_env 1 '=' (sp L ++ X) (by decide) (by decide)
   have hstop : No pil_env 15 {} (.group (.ref "pattern")) { rest := X, past := false } :=
-    No_group (No_ref pattern_lookup (No_many1 (No_item_at pil_env { rest := X, past := false } c0 t e1 e2 e3)))
+    No_group (No_ref pattern_lookup (No_many1 hX2))
   have h3 := Ok_many1 (Ok_group (Ok_ref pattern_lookup hpat)) (OkMany_stop hstop)
   simp only [List.replicate_zero, List.nil_append, List.replicate_one,
     List.cons_append] at h1 h2
@@ -1089,8 +1089,8 @@ theorem TailOK_conc (mode : List Char) (vc : Char) (vm unit : List Char) : TailO
       '@' :: (mode ++ (' ' :: (vc :: vm ++ (' ' :: (unit ++ ['\n']))))) := by
     have := skipIgn_blanks_cons 1 '@' (mode ++ (' ' :: (vc :: vm ++ (' ' :: (unit ++ ['\n']))))) (by decide) (by decide)
     simpa using this
-  exact ⟨OutHd_cons _ _ _ ⟨outside_facts ' ' (by decide), by decide, by decide, by decide⟩, '@', _, hsk,
-    (punct_facts '@' (by decide)).1, by decide⟩
+  exact TailOK.of_cons _ (OutHd_cons _ _ _ ⟨outside_facts ' ' (by decide), by decide, by decide, by decide⟩) '@' _ hsk
+    (punct_facts '@' (by decide)).1 (by decide)
 
 theorem kernel_conc_parse (nc : Char) (m : List Char) (L : List Ent) (toks : List Tree)
     (mode : List Char) (vc : Char) (vm unit : List Char)
